@@ -317,6 +317,254 @@ def dag_names_cases(jmax, kmax, shapes, extras, orders=(0, 1)):
                             yield env, dag_names_formula(env, j, k, order, ex, shape, extra), "dagnames"
 
 
+# ---- DERIVED family: shapes that are - or merely LOOK LIKE - the expansion of a derived constructor.  A printer
+#      that starts recognising such shapes (a "compact" output such as (distinct ...), (xor ...), chained = or <)
+#      breaks the token-exact correspondence on the genuine expansions and is judged by meaning on the near-misses,
+#      under ALL interpretations over a 2-3 element domain.
+def small_interps(f, rnd, dom=3, cap=1100):
+    """All interpretations of the free symbols of f over small domains (Int: 0..dom-1, Real: 0, 1/2, 1,
+    Bool, BV of width <= 2: all values, uninterpreted sorts: dom elements); a random sample of `cap` when there
+    are more; None if a symbol has another sort."""
+    import itertools
+    from fractions import Fraction
+    syms = sorted((x for x in refeval.free_symbols([f])), key=lambda x: x.symbol_name())
+    usizes, doms = {}, []
+    for x in syms:
+        t = x.symbol_type()
+        if t.is_bool_type():
+            doms.append([False, True])
+        elif t.is_int_type():
+            doms.append(list(range(dom)))
+        elif t.is_real_type():
+            doms.append([Fraction(0), Fraction(1, 2), Fraction(1)][:dom])
+        elif t.is_bv_type() and t.width <= 2:
+            doms.append([refeval.BV(t.width, v) for v in range(1 << t.width)])
+        elif t.is_custom_type() and not t.args:
+            usizes[refeval.sort_name(t)] = dom
+            doms.append([refeval.UVal(refeval.sort_name(t), k) for k in range(dom)])
+        else:
+            return None
+    total = 1
+    for d in doms:
+        total *= len(d)
+    if total <= cap:
+        combos = itertools.product(*doms)
+    else:
+        combos = (tuple(rnd.choice(d) for d in doms) for _ in range(cap))
+    return (refeval.Interp(symbols=dict(((x.symbol_name(), x.symbol_type()), v) for x, v in zip(syms, vals)),
+                           usizes=usizes, div0="function") for vals in combos)
+
+
+def _terms(env, kind, n):
+    m = env.formula_manager
+    if kind == "bool":
+        return [m.Symbol("p%d" % i, BOOL) for i in range(n)]
+    if kind == "int":
+        return [m.Symbol("x%d" % i, INT) for i in range(n)]
+    if kind == "bv":
+        return [m.Symbol("v%d" % i, BVType(2)) for i in range(n)]
+    if kind == "u":
+        U = env.type_manager.Type("U", 0)
+        return [m.Symbol("u%d" % i, U) for i in range(n)]
+    if kind == "intc":      # compound Int terms
+        xs = [m.Symbol("x%d" % i, INT) for i in range(n)]
+        return [m.Plus(x, m.Int(i % 2)) if i % 2 else x for i, x in enumerate(xs)]
+    raise ValueError(kind)
+
+
+def _neq(m, a, b):
+    return m.Not(m.EqualsOrIff(a, b))
+
+
+def _boolify(env, t, name="zz_res"):
+    ty = env.stc.get_type(t)
+    return t if ty.is_bool_type() else env.formula_manager.Equals(t, env.formula_manager.Symbol(name, ty))
+
+
+def derived_genuine(env, which, kind, n):
+    """The genuine expansion / natural spelling number `which` over n terms of sort `kind`, or None."""
+    m = env.formula_manager
+    ts = _terms(env, kind, n)
+    if which == "alldiff":
+        return m.AllDifferent(ts) if n >= 2 else None
+    if kind == "bool":
+        if which == "exactlyone":
+            return m.ExactlyOne(ts)
+        if which == "atmostone":
+            return m.AtMostOne(ts) if n >= 2 else None
+        if which == "xor":
+            r = ts[0]
+            for t in ts[1:]:
+                r = m.Xor(r, t)
+            return r
+        if which == "implies_r":
+            r = ts[-1]
+            for t in reversed(ts[:-1]):
+                r = m.Implies(t, r)
+            return r
+        if which == "implies_l":
+            r = ts[0]
+            for t in ts[1:]:
+                r = m.Implies(r, t)
+            return r
+        if which == "iff_chain":
+            return m.And([m.Iff(a, b) for a, b in zip(ts, ts[1:])]) if n >= 3 else m.Iff(ts[0], ts[1])
+        return None
+    if kind in ("int", "intc"):
+        if which == "min":
+            return _boolify(env, m.Min(ts))
+        if which == "max":
+            return _boolify(env, m.Max(ts))
+        if which in ("lt_chain", "le_chain", "eq_chain", "gt_chain", "ge_chain"):
+            rel = {"lt_chain": m.LT, "le_chain": m.LE, "eq_chain": m.Equals, "gt_chain": m.GT, "ge_chain": m.GE}[which]
+            cs = [rel(a, b) for a, b in zip(ts, ts[1:])]
+            return m.And(cs) if len(cs) > 1 else cs[0]
+        if which == "abs":
+            return _boolify(env, m.Plus([m.Ite(m.LT(t, m.Int(0)), m.Minus(m.Int(0), t), t) for t in ts]) if n > 1 else
+                            m.Ite(m.LT(ts[0], m.Int(0)), m.Minus(m.Int(0), ts[0]), ts[0]))
+        if which == "noteq":
+            return m.NotEquals(ts[0], ts[1])
+        return None
+    if kind == "bv":
+        if which == "minbv":
+            return _boolify(env, m.MinBV(n % 2 == 0, ts))
+        if which == "maxbv":
+            return _boolify(env, m.MaxBV(n % 2 == 1, ts))
+        if which in ("ugt", "uge", "sgt", "sge", "eq_chain"):
+            rel = {"ugt": m.BVUGT, "uge": m.BVUGE, "sgt": m.BVSGT, "sge": m.BVSGE, "eq_chain": m.Equals}[which]
+            cs = [rel(a, b) for a, b in zip(ts, ts[1:])]
+            return m.And(cs) if len(cs) > 1 else cs[0]
+        if which in ("nand", "nor", "xnor", "smod", "comp"):
+            fn = {"nand": m.BVNand, "nor": m.BVNor, "xnor": m.BVXnor, "smod": m.BVSMod, "comp": m.BVComp}[which]
+            r = ts[0]
+            for t in ts[1:]:
+                r = fn(r, t) if which != "comp" else m.BVZExt(fn(r, t), 1)
+            return _boolify(env, r)
+        if which == "repeat":
+            return _boolify(env, m.BVRepeat(ts[0], n))
+        return None
+    return None
+
+
+DERIVED_GENUINE = {"bool": ("alldiff", "exactlyone", "atmostone", "xor", "implies_r", "implies_l", "iff_chain"),
+                   "int": ("alldiff", "min", "max", "lt_chain", "le_chain", "eq_chain", "gt_chain", "ge_chain", "abs", "noteq"),
+                   "intc": ("alldiff", "min", "eq_chain"),
+                   "bv": ("alldiff", "minbv", "maxbv", "ugt", "uge", "sgt", "sge", "eq_chain", "nand", "nor", "xnor", "smod", "comp", "repeat"),
+                   "u": ("alldiff", "eq_chain")}
+NEAR_VARIANTS = ("drop", "dupflip", "swap", "dupsame", "replace", "extraterm", "swap2")
+
+
+def all_pairs(n):
+    return [(i, j) for i in range(n) for j in range(i + 1, n)]
+
+
+def near_miss(env, kind, n, variant, rnd):
+    """A conjunction of disequalities over n terms that is NOT the expansion of AllDifferent but looks like one."""
+    m = env.formula_manager
+    ts = _terms(env, kind, n + 1)
+    ps = all_pairs(n)
+    if variant == "drop":                         # one conjunct missing
+        ps = ps[:-1] if rnd.random() < 0.5 else ps[1:]
+    elif variant == "dupflip":                    # one pair also in the other orientation (one conjunct too many)
+        i, j = rnd.choice(ps)
+        ps = ps + [(j, i)]
+    elif variant == "swap":                       # triangular count, but one pair twice (both orientations), one missing
+        k = rnd.randrange(len(ps))
+        missing = ps[k]
+        rest = ps[:k] + ps[k + 1:]
+        i, j = rnd.choice(rest)
+        ps = rest[:1] + [(j, i)] + rest[1:]
+    elif variant == "swap2":                      # same, the doubled pair first and flipped pair adjacent: (a!=b)&(b!=a)&...
+        rest = ps[:-1]
+        i, j = rest[0]
+        ps = [rest[0], (j, i)] + rest[1:]
+    elif variant == "dupsame":                    # triangular count, the very same conjunct twice, one pair missing
+        rest = ps[:-1]
+        ps = rest + [rest[rnd.randrange(len(rest))]]
+    elif variant == "replace":                    # one pair replaced by a pair with a term not among the n
+        ps = ps[:-1] + [(ps[-1][0], n)]
+    elif variant == "extraterm":                  # the full expansion plus one disequality with an extra term
+        ps = ps + [(0, n)]
+    cs = [_neq(m, ts[i], ts[j]) for i, j in ps]
+    return m.And(cs)
+
+
+def random_triangular(env, kinds, n, rnd):
+    """k = n(n-1)/2 oriented disequalities drawn with repetition over n terms of mixed sorts (Equals and Iff)."""
+    m = env.formula_manager
+    groups = []
+    left = n
+    for idx, kind in enumerate(kinds):
+        cnt = left if idx == len(kinds) - 1 else rnd.randint(1, max(1, left - (len(kinds) - 1 - idx)))
+        left -= cnt
+        if cnt:
+            groups.append(_terms(env, kind, max(cnt, 2))[:max(cnt, 2)])
+    pool = [(a, b) for g in groups for a in g for b in g if a is not b]
+    k = n * (n - 1) // 2
+    cs = [_neq(m, *rnd.choice(pool)) for _ in range(k)]
+    return m.And(cs) if len(cs) > 1 else cs[0]
+
+
+def derived_cases(rnd, thorough=False):
+    def fresh():
+        env = Environment()
+        push_env(env)
+        return env
+    for kind, names in DERIVED_GENUINE.items():
+        for which in names:
+            for n in range(2, 6):
+                env = fresh()
+                f = derived_genuine(env, which, kind, n)
+                if f is not None:
+                    yield env, f, "derived"
+    reps = 3 if thorough else 1
+    for kind in ("int", "bv", "u", "bool", "intc"):
+        for n in (3, 4, 5):
+            for variant in NEAR_VARIANTS:
+                for _ in range(reps):
+                    env = fresh()
+                    yield env, near_miss(env, kind, n, variant, rnd), "nearmiss"
+    for kinds in (("int",), ("bv",), ("u",), ("bool", "int"), ("bool", "u"), ("int", "bv")):
+        for n in (3, 4, 5):
+            for _ in range(8 if thorough else 3):
+                env = fresh()
+                yield env, random_triangular(env, kinds, n, rnd), "nearmiss"
+
+
+def smtread_selftest():
+    """The reader must judge NEW spellings by meaning: operators a compact printer might start to use."""
+    from pysmt.typing import BOOL as B, INT as I
+    bad = []
+    decl = "(declare-fun a () Int)(declare-fun b () Int)(declare-fun c () Int)(declare-fun p () Bool)(declare-fun q () Bool)(declare-fun r () Bool)(declare-fun v () (_ BitVec 2))"
+    tests = [("(distinct a b c)", lambda e: len({e["a"], e["b"], e["c"]}) == 3),
+             ("(= a b c)", lambda e: e["a"] == e["b"] == e["c"]),
+             ("(< a b c)", lambda e: e["a"] < e["b"] < e["c"]),
+             ("(>= a b c)", lambda e: e["a"] >= e["b"] >= e["c"]),
+             ("(xor p q r)", lambda e: (e["p"] != e["q"]) != e["r"]),
+             ("(=> p q r)", lambda e: (not e["p"]) or ((not e["q"]) or e["r"])),
+             ("(= p q r)", lambda e: e["p"] == e["q"] == e["r"]),
+             ("(distinct p q)", lambda e: e["p"] != e["q"]),
+             ("(let ((a b) (b a)) (< a b))", lambda e: e["b"] < e["a"]),
+             ("(= (bvcomp v #b01) #b1)", lambda e: e["v"] == 1),
+             ("(and (ite p (= (- a) (- 0 a)) true) (= (abs (- a)) (ite (< a 0) (- a) a)))", lambda e: True),
+             ("(= (+ a b c) (+ (+ a b) c))", lambda e: True)]
+    import itertools
+    for text, want in tests:
+        try:
+            sc = smtread.Script("(set-logic ALL)" + decl + "(assert " + text + ")(check-sat)")
+            term, sig = sc.assertions[0]
+            for a, b, c, p, q, r, v in itertools.product((0, 1, 2), (0, 1, 2), (0, 1), (False, True), (False, True), (False, True), (1, 2)):
+                e = dict(a=a, b=b, c=c, p=p, q=q, r=r, v=v)
+                Iv = refeval.Interp(symbols={("a", I): a, ("b", I): b, ("c", I): c, ("p", B): p, ("q", B): q, ("r", B): r,
+                                             ("v", BVType(2)): refeval.BV(2, v)}, div0="function")
+                if smtread.value(term, sig, Iv) != want(e):
+                    bad.append((text, e))
+                    break
+        except Exception as ex:
+            bad.append((text, repr(ex)))
+    return bad
+
+
 # directed inputs for the defects DESIGN.md section 6 suspects (and relatives found while modelling);
 # each is ( stable key, description, builder(env) -> formula )
 def _f_int_div(env):
@@ -450,7 +698,9 @@ def search_one(chk, env, f, rnd, n_interp, which, stats, exhaustive=False):
     term, sig = sc.assertions[0]
     cache = refeval.EvalCache()
     interps = None
-    if exhaustive:
+    if exhaustive == "small":
+        interps = small_interps(f, rnd)
+    elif exhaustive:
         interps = refeval.exhaustive_interps([f], limit=256, div0="function")
     if interps is None:
         interps = (refeval.random_interp(rnd, [f], div0="function") for _ in range(n_interp))
@@ -550,6 +800,8 @@ def gen_cases(rnd, tier):
     if tier == "thorough":
         for x in dag_names_cases(6, 5, (0, 1, 2), (0, 1, 2), (0, 1, 2)):     # 7 x 5 x 3 x 2 x 3 x 3 = 1890
             yield x
+    for x in derived_cases(rnd, tier == "thorough"):
+        yield x
 
 
 def run(tier):
@@ -558,6 +810,11 @@ def run(tier):
     gen_all.regen_all()
     ok = chk.prove()
     lib.clean_cases(chk.dir)
+    st_bad = smtread_selftest()
+    chk.cov["smtread_selftest_failures"] = st_bad
+    if st_bad:
+        chk.violation({"kind": "obligation", "theorem_or_correspondence": ["harness/smtread.py misreads %r" % (st_bad[:3],)]},
+                      found_input=False)
     stats = {}
     cases, meta = [], []
     n_interp = 4 if tier == "quick" else 10
@@ -572,7 +829,7 @@ def run(tier):
         texts = {}
         for which in ("tree", "dag"):
             texts[which] = search_one(chk, env, f, rnd, 1 if tag == "sortshape" else n_interp, which, stats,
-                                      exhaustive=(tag == "dagnames"))
+                                      exhaustive=("small" if tag in ("derived", "nearmiss") else tag == "dagnames"))
         # (cvc5 refuses to DECLARE symbols starting with . or @ - reserved for solver use by the standard -
         #  so formulas with such free symbols, which the name generator produces on purpose, are not sent)
         if tier == "thorough" and texts["dag"] and rnd.random() < 0.15 and \
@@ -731,7 +988,10 @@ def run(tier):
                       "re-bind names and use .def_N look-alikes; systematic families: SORT-SHAPE (a user sort as the only occurrence at "
                       "depth 0..3 under Array index / Array element / parametric argument x 6 carriers = 240 scripts) and DAG-NAMES "
                       "(binders .def_0...def_5 x 1..3 outer lets x visit orders x quantifier x shared-term shape = 144, all "
-                      "interpretations evaluated; 1890 in the thorough tier); both printers; distinct = distinct structural keys")
+                      "interpretations evaluated; 1890 in the thorough tier), DERIVED (genuine expansions of every derived constructor "
+                      "at arities 2..5 over Bool/Int/BV/uninterpreted terms, and near-misses of the AllDifferent expansion - dropped, "
+                      "duplicated, flipped, replaced conjuncts, extra terms, mixed Equals/Iff, triangular counts 3/6/10 - under ALL "
+                      "interpretations over 2-3 element domains); both printers; distinct = distinct structural keys")
 
 
 def replay(path):
